@@ -1341,3 +1341,84 @@ PROPS['C06'] = _lay_props(['KVerif.Props.C06'],
     'C06o',
     assumptions=['OS output is taken as the key-code list of the layout per tick (the kanata diffing layer is modelled separately)',
                  'ticks are delivered every millisecond: the idle-blocking of the kanata event loop (on the pinned commit is_idle treated oneshot.timeout == 0 as idle, which with rapid-event-delay 0 postponed the release of the one-shot key to the next input) is the subject of C07, not of this layout-level check'])
+
+# ----------------------------------------------------------------------------- C08 (macros)
+def _c08_split(case):
+    """(head tokens up to HIST, history events, tail tokens from MAC on)"""
+    t = case.split()
+    hi = t.index('HIST')
+    n = int(t[hi + 1])
+    evs = []
+    i = hi + 2
+    for _ in range(n):
+        if t[i] in ('p', 'r'):
+            evs.append(t[i:i + 3]); i += 3
+        else:
+            evs.append(t[i:i + 2]); i += 2
+    return t[:hi], evs, t[i:]
+
+
+def _c08_join(head, evs, tail):
+    return ' '.join(head + ['HIST', str(len(evs))] + [x for e in evs for x in e] + tail)
+
+
+def _c08_shrink(case):
+    # drop one history event at a time, then halve tick gaps (the macro bodies stay)
+    try:
+        head, evs, tail = _c08_split(case)
+    except Exception:
+        return
+    for k in range(len(evs)):
+        yield _c08_join(head, evs[:k] + evs[k + 1:], tail)
+    for k in range(len(evs)):
+        if evs[k][0] == 't' and int(evs[k][1]) > 1:
+            yield _c08_join(head, evs[:k] + [['t', str(int(evs[k][1]) // 2)]] + evs[k + 1:], tail)
+
+
+def _c08_describe(case):
+    try:
+        head, evs, tail = _c08_split(case)
+        return {'level': 'whole Kanata (handle_input_event / tick_ms)' if head[0] == 'KAN' else 'bare keyberon Layout (event / tick)',
+                'config': _hex_cfg(case), 'history': ' '.join(x for e in evs for x in e),
+                'family': tail[-1] if tail else '',
+                'CancelSequences_patched_at': tail[tail.index('PATCH') + 2:tail.index('FAM')] if 'PATCH' in tail else []}
+    except Exception:
+        return case
+
+
+def _c08_stats(cases, impl):
+    import collections
+    d = collections.Counter()
+    for c, i in zip(cases, impl):
+        t = c.split()
+        d['level_' + t[0]] += 1
+        d['family_' + (t[-1] if 'FAM' in t else '?')] += 1
+        d['rejected_by_parser' if i.startswith('rej') else 'crash' if i.startswith('crash') else 'ran'] += 1
+        m = re.search(r' EV(\d+)', i)
+        if m and int(m.group(1)) > 0:
+            d['ring_eviction_observed'] += 1
+        cfg = _hex_cfg(c)
+        for name in ('macro-repeat-release-cancel-and-cancel-on-press', 'macro-release-cancel-and-cancel-on-press',
+                     'macro-repeat-cancel-on-press', 'macro-repeat-release-cancel', 'macro-cancel-on-press',
+                     'macro-release-cancel', 'macro-repeat', 'macro'):
+            k = len(re.findall(r'\(' + name + r'[ )]', cfg))
+            if k:
+                d['form_' + name] += k
+        steps = len(re.findall(r'[prdc]\d', i.split(' X', 1)[1])) if ' X' in i else 0
+        d['expanded_events_0_5' if steps <= 5 else 'expanded_events_6_20' if steps <= 20 else 'expanded_events_21_plus'] += 1
+    return dict(d)
+
+
+PROPS['C08'] = _lay_props(
+    ['KVerif.Props.C08'],
+    'macro bodies from the macro grammar (keys, delays, output chords, unicode / mouse items, plain groups, groups held under 1-2 modifier prefixes written S-(..) or S- (..), nesting depth <= 3, <= 20 items) in all eight macro list actions (macro, -release-cancel, -cancel-on-press, -release-cancel-and-cancel-on-press, each also as macro-repeat...); every body of <= 2 top-level items over a 4-atom alphabet with one level of nesting (exhaustive); bodies the parser must refuse (bare prefix without list, delay 0 / 65536, O- prefix, other actions, empty body) and boundary delays; histories: one activation, several spaced or overlapping activations, key held over several repeats, plain keys typed meanwhile, random consistent histories over 1-3 macros sharing keys and modifiers; 2-6 macros with their own key pools tapped 1-20 ticks apart while the first still holds its modifier (<= 4: all must play; 5-6: ring eviction); cancellation at EVERY tick offset of the body: CancelSequences (patched in at layout level), release of a release-cancel macro, another press during a cancel-on-press macro. LAY cases run the bare keyberon Layout, KAN cases a whole Kanata (handle_input_event / tick_ms) so that the cancellation glue runs. Compared per tick: key list, custom events (LAY), final private-state digest (+ cancel countdown), the number of ring evictions observed from outside, and the SequenceEvent list the real parser produced for every macro against the parser model run on the body tree. non-trivial = the key list changed at least twice; distinct = distinct case line. Oracle on the implementation trace (Spec/Macro.lean): projection of the key-list trace onto each macro\'s own keys = its spelling run by run (order, one step per tick, spelled delays at least), exactly one run per activation (plain), restarts only while held (repeat), prefix-then-released under cancellation; all macro keys up at the end; plain keys in press order',
+    'C08o',
+    extra_trusted=['Model/MacroExpand.lean as a transcription of parse_macro / parse_macro_item_impl / the wrapper forms (checked differentially against the real parser on every case), the classification of body items into key / chord / custom / list / prefix is written by the harness generator together with the config text',
+                   'Model/MacroCancel.lean as a transcription of the three cancellation sites of src/kanata/mod.rs (checked differentially on whole-Kanata cases)',
+                   'gen/g_macro.py (ring capacity and Wrapping behaviour, states capacity, KEY_OVERLAP regenerated from source)'],
+    assumptions=['OS output is taken as the key-code list of the layout per tick (LAY) / Kanata::prev_keys per tick (KAN); the press/release diffing is the kanata layer (C01/C13/C14)',
+                 'whole-Kanata cases use configurations of plain keys and macros only, so that no other part of handle_keystate_changes touches layout.states',
+                 'the oracle says nothing about the projection of a macro whose keys are shared with another macro or a plain key, or whose activations overlap in time (it still requires all keys up at the end)'])
+PROPS['C08']['shrink_candidates'] = _c08_shrink
+PROPS['C08']['describe'] = _c08_describe
+PROPS['C08']['stats'] = _c08_stats
